@@ -126,8 +126,9 @@ CHECKS.update({
         ref="4/C09"),
     "C10": dict(
         technique="Lean 4 proof (ownership/provenance step model; schedule independence of read-only computations) + dynamic correspondence (snapshots, np.shares_memory, real threads)",
-        text="Theorems: for all 72 option combinations get() writes no stored array in place and returns none; minima's in-place "
-             "flip hits a fresh array (and would hit the stored one without the defensive copy); computations that only read a "
+        text="Theorems: for all 72 option combinations get() writes no stored array in place and returns none; minima writes to no "
+             "array in place (it negates into a new array since the F51 repair; without the defensive copy a retrieval would hand "
+             "out the stored arrays and any in-place step would hit them: machine-checked witnesses); computations that only read a "
              "shared store end, after ANY schedule, in the state of their own sequential execution; a copy equals its source "
              "field by field and owns new arrays. Tied dynamically: bit-for-bit snapshots around every query x option "
              "combination, aliasing tags vs np.shares_memory, threads vs sequential results, vars(copy) == vars(original).",
